@@ -156,10 +156,59 @@ Qed.
 (* ---------- one operation, seen from transaction j ---------- *)
 Lemma logs_of_step b op j : logs_of (a_step b op) j = tx_sem j (logs_of b j) op.
 Proof.
-  unfold logs_of, tx_sem. destruct op as [bh i th ls|bh i th st ls]; simpl;
+  unfold logs_of, tx_sem. destruct op as [bh i th ls|bh i th st ls|bh i th tas]; simpl;
     rewrite find_txs_apply by reflexivity; rewrite (N.eqb_sym i j);
-    destruct (j =? i) eqn:J; auto; simpl.
-  replace j with i by lia. destruct (find_tx i (b_txs b)); reflexivity.
+    destruct (j =? i) eqn:J; auto; simpl;
+    replace j with i by lia; destruct (find_tx i (b_txs b)); reflexivity.
+Qed.
+
+Lemma traces_of_step b op j : traces_of (a_step b op) j = trace_sem j (traces_of b j) op.
+Proof.
+  unfold traces_of, trace_sem. destruct op as [bh i th ls|bh i th st ls|bh i th tas]; simpl;
+    rewrite find_txs_apply by reflexivity.
+  - destruct (j =? i) eqn:J; auto. replace j with i by lia. destruct (find_tx i (b_txs b)); reflexivity.
+  - destruct (j =? i) eqn:J; auto. replace j with i by lia. destruct (find_tx i (b_txs b)); reflexivity.
+  - rewrite (N.eqb_sym i j). destruct (j =? i) eqn:J; auto.
+Qed.
+
+Lemma traces_of_run ops : forall b j,
+  traces_of (a_run b ops) j = fold_left (trace_sem j) ops (traces_of b j).
+Proof.
+  induction ops as [|op r IH]; intros b j; simpl; auto.
+  unfold a_run in *. simpl. rewrite IH, traces_of_step. reflexivity.
+Qed.
+
+(* the trace actions of transaction j after any operations: those of the LAST
+   trace attachment to j (replaced, not merged), the initial ones if there was none *)
+Lemma trace_sem_last j ops : forall cur,
+  let r := fold_left (trace_sem j) ops cur in
+  (forall bh th tas, ~ In (ATraces bh j th tas) ops) /\ r = cur
+  \/ exists bh th tas, In (ATraces bh j th tas) ops /\ r = tas.
+Proof.
+  induction ops as [|op r IH]; intros cur; simpl.
+  - left. split; auto.
+  - destruct (IH (trace_sem j cur op)) as [[Hn E]|(bh & th & tas & Hin & E)].
+    + destruct op as [bh i th ls|bh i th st ls|bh i th tas]; simpl in *;
+        try (left; split; [intros a b c [H|H]; [discriminate|eapply Hn; eauto]|exact E]).
+      destruct (i =? j) eqn:Ei.
+      * right. exists bh, th, tas. split; [left; f_equal; lia|exact E].
+      * left. split; [|exact E]. intros a b c [H|H]; [inversion H; lia|eapply Hn; eauto].
+    + right. exists bh, th, tas. split; [right; auto|exact E].
+Qed.
+
+(* an unchanging block whose transaction j has the trace actions [ftr j]:
+   whoever attached last, a transaction that received a trace attachment
+   carries exactly its trace actions *)
+Lemma traces_honest (ftr : N -> list N) ops b j :
+  (forall bh i th tas, In (ATraces bh i th tas) ops -> tas = ftr i) ->
+  (traces_of b j = ftr j \/ traces_of b j = []) ->
+  traces_of (a_run b ops) j = ftr j
+  \/ (traces_of (a_run b ops) j = [] /\ forall bh th tas, ~ In (ATraces bh j th tas) ops).
+Proof.
+  intros H H0. rewrite traces_of_run.
+  destruct (trace_sem_last j ops (traces_of b j)) as [[Hn E]|(bh & th & tas & Hin & E)].
+  - simpl in E. rewrite E. destruct H0 as [H0|H0]; [left; auto|right; auto].
+  - left. simpl in E. rewrite E. eapply H; eauto.
 Qed.
 
 Lemma logs_of_run ops : forall b j,
@@ -172,12 +221,15 @@ Qed.
 Lemma wf_step b op :
   wf_blk b -> (is_group op = false -> NoDup (idxs (op_logs op))) -> wf_blk (a_step b op).
 Proof.
-  intros [W1 W2] Hr. destruct op as [bh i th ls|bh i th st ls]; simpl; split; simpl.
+  intros [W1 W2] Hr. destruct op as [bh i th ls|bh i th st ls|bh i th tas]; simpl; split; simpl.
   - apply txs_apply_nodup; auto.
   - intros t Ht. apply txs_apply_in in Ht. destruct Ht as [Ht|(t0 & -> & Ht)]; auto.
     simpl. apply add_all_nodup. destruct Ht as [Ht| ->]; auto. simpl. constructor.
   - apply txs_apply_nodup; auto.
   - intros t Ht. apply txs_apply_in in Ht. destruct Ht as [Ht|(t0 & -> & Ht)]; auto.
+  - apply txs_apply_nodup; auto.
+  - intros t Ht. apply txs_apply_in in Ht. destruct Ht as [Ht|(t0 & -> & Ht)]; auto.
+    simpl. destruct Ht as [Ht| ->]; auto.
 Qed.
 
 Lemma wf_logs_of b i : wf_blk b -> NoDup (idxs (logs_of b i)).
@@ -199,7 +251,7 @@ Qed.
 
 (* ---------- any order, any repetition of Add-style attaches ---------- *)
 Lemma sem_groups i ops : forall cur,
-  forallb is_group ops = true ->
+  forallb adds_only ops = true ->
   let r := fold_left (tx_sem i) ops cur in
   (forall x, In x cur -> In x r)
   /\ (forall x, In x r -> In x cur \/ exists op, In op ops /\ op_tx op = i /\ In x (op_logs op))
@@ -211,23 +263,23 @@ Proof.
     destruct (IH (tx_sem i cur op) G2) as (A & B & C).
     assert (M : forall x, In x cur -> In x (tx_sem i cur op)).
     { intros x Hx. unfold tx_sem. destruct (op_tx op =? i); auto.
-      destruct op; [apply add_all_mono; auto|discriminate]. }
+      destruct op; [apply add_all_mono; auto|discriminate|auto]. }
     split; [|split].
     + intros x Hx. apply A. apply M. auto.
     + intros x Hx. apply B in Hx. destruct Hx as [Hx|(op' & H1 & H2 & H3)].
       * unfold tx_sem in Hx. destruct (op_tx op =? i) eqn:E; auto.
-        destruct op as [bh i' th ls|]; [|discriminate]. apply add_all_from in Hx.
+        destruct op as [bh i' th ls| |]; [|discriminate|auto]. apply add_all_from in Hx.
         destruct Hx as [Hx|Hx]; auto. right. exists (AGroup bh i' th ls). simpl in *.
         split; auto. split; auto. lia.
       * right. exists op'. auto.
     + intros op' x [<-|Hin] Hi Hx.
       * eapply idxs_mono; [exact A|]. unfold tx_sem. replace (op_tx op =? i) with true by lia.
-        destruct op as [bh i' th ls|]; [|discriminate]. simpl in Hx. apply add_all_idx. auto.
+        destruct op as [bh i' th ls| |]; [|discriminate|contradiction]. simpl in Hx. apply add_all_idx. auto.
       * eapply C; eauto.
 Qed.
 
 Lemma attach_union ops b :
-  wf_blk b -> forallb is_group ops = true ->
+  wf_blk b -> forallb adds_only ops = true ->
   let b' := a_run b ops in
   wf_blk b'
   /\ forall i,
@@ -240,14 +292,15 @@ Lemma attach_union ops b :
 Proof.
   intros W G b'.
   assert (W' : wf_blk b').
-  { apply wf_run; auto. intros op Hin Hg. rewrite forallb_forall in G. rewrite G in Hg; auto. discriminate. }
+  { apply wf_run; auto. intros op Hin Hg. rewrite forallb_forall in G. specialize (G op Hin).
+    destruct op; simpl in *; try discriminate. constructor. }
   split; auto. intros i. split; [apply wf_logs_of; auto|].
   unfold b'. rewrite logs_of_run. apply sem_groups. auto.
 Qed.
 
 (* when an index always names the same log, the logs themselves are kept *)
 Lemma attach_union_consistent ops b i :
-  wf_blk b -> forallb is_group ops = true ->
+  wf_blk b -> forallb adds_only ops = true ->
   (forall x y, (In x (logs_of b i) \/ exists op, In op ops /\ op_tx op = i /\ In x (op_logs op)) ->
                (In y (logs_of b i) \/ exists op, In op ops /\ op_tx op = i /\ In y (op_logs op)) ->
                l_idx x = l_idx y -> x = y) ->
@@ -284,7 +337,7 @@ Lemma sem_honest_step i cur op :
 Proof.
   intros Hc [H1 H2] r. unfold r, tx_sem. destruct (op_tx op =? i) eqn:E.
   - assert (Ei : op_tx op = i) by lia. rewrite Ei in *.
-    destruct op as [bh i' th ls|bh i' th st ls]; simpl in *.
+    destruct op as [bh i' th ls|bh i' th st ls|bh i' th tas]; simpl in *.
     + split; [|split].
       * intros x Hx. apply add_all_from in Hx. destruct Hx; auto.
       * intros x Hx. apply add_all_mono; auto.
@@ -293,6 +346,7 @@ Proof.
         -- apply in_app_or in Ha. destruct Ha; auto.
         -- apply in_app_or in Hb. destruct Hb; auto.
     + rewrite (H2 eq_refl). split; [apply incl_refl|]. split; auto. intros _. apply incl_refl.
+    + split; auto. split; [apply incl_refl|]. intros _ x [].
   - split; auto. split; [apply incl_refl|]. intros Ei. lia.
 Qed.
 
@@ -313,7 +367,10 @@ Proof.
 Qed.
 
 Lemma honest_nodup op : honest op -> is_group op = false -> NoDup (idxs (op_logs op)).
-Proof. intros [_ H] G. rewrite (H G). apply full_nodup. Qed.
+Proof.
+  intros [_ H] G. destruct op; simpl in *; [discriminate| |constructor].
+  rewrite (H eq_refl). apply full_nodup.
+Qed.
 
 Lemma attach_honest ops b :
   wf_blk b -> (forall i, incl (logs_of b i) (full i)) -> Forall honest ops ->
@@ -366,3 +423,11 @@ Proof.
   specialize (H [LMake 0 1; LAtomic (AGroup 0 0 0 [mkLog 5 1 9]); LCopy 0 [mkLog 5 1 9]]).
   vm_compute in H. inversion H as [|x l Hn _]; subst. apply Hn. left. reflexivity.
 Qed.
+
+(* traces() before the repair published the new trace slice empty and filled
+   it in place: between the two steps a caller that already holds the block
+   sees trace actions that are not the transaction's *)
+Lemma legacy_traces_visible_incomplete :
+  exists ops, traces_of (legacy_run (mkBlk 7 0 0 [mkTx 0 9 0 [] [41; 42]]) ops) 0 <> [41; 42]
+              /\ ops = [LTMake 0 2].
+Proof. eexists. split; [|reflexivity]. vm_compute. discriminate. Qed.
